@@ -536,7 +536,7 @@ func crashCampaign(prop string, r *Result, quick, thorough int, double bool) {
 	per := (n + workers - 1) / workers
 	parallel(workers, workers, func(w int) {
 		rng := newRand(uint64(9000 + w))
-		for i := w*per - 2; i < (w+1)*per && i < n; i++ {
+		for i := w*per - 3; i < (w+1)*per && i < n; i++ {
 			if i < 0 && w != 0 {
 				continue
 			}
@@ -552,6 +552,15 @@ func crashCampaign(prop string, r *Result, quick, thorough int, double bool) {
 				g.ContMode, g.PGroup = "fail0", 0.5 // continuous checks whose (initial) run fails
 			}
 			ps := g.plan()
+			if i == -3 {
+				// recovery must pre-count a Failed sequence that lies behind an in-flight (reset) one: Concurrency 2, tolerance 0,
+				// a slow first sequence, a failing second one, two more that must then never start (seeded change C03-A)
+				ps = &PlanSpec{Blocks: []BlockSpec{{Conc: 2, Tol: 0, Seqs: []SeqSpec{
+					{Actions: []ActSpec{{Tag: "c03.slow", Script: []Outcome{{Resp: "good", Err: "none", DelayUs: 4000}}}}},
+					{Actions: []ActSpec{{Tag: "c03.fail", Script: []Outcome{{Resp: "nil", Err: "permanent"}}}}},
+					{Actions: []ActSpec{{Tag: "c03.c"}}}, {Actions: []ActSpec{{Tag: "c03.d"}}}}}}}
+				r.count("corpus")
+			}
 			if i == -2 {
 				// stored witness of fixed defect D27 (05cb03a): an action in flight at the first crash, the second crash inside
 				// Recovery's write of the repaired plan; every (cut, cut2) pair is replayed
